@@ -8,12 +8,12 @@ TARGETS = ['pytezos.michelson.sections.parameter.ParameterSection.create_type', 
            'pytezos.michelson.types.adt.get_type_layout', 'pytezos.michelson.types.adt.wrap_parameters']
 STUBS = ['str(int)/int(str) -> opaque decimal token']
 BOUNDS = {'quick': 'union trees of depth <= 2 (4 shapes, up to 4 leaves) + non-union roots; every subset of nodes annotated (distinct names), one of them optionally named '
-                   '"default" or "root", root optionally annotated; leaf values symbolic (ints unbounded, strings <= 1); Left/Right path symbolic',
+                   '"default" or "root", root optionally annotated; leaf values symbolic (ints unbounded, strings <= 1, lists/sets <= 1 incl. empty, options, bools); Left/Right path symbolic',
           'thorough': 'adds the depth-3 comb-like shapes with 5 leaves'}
 OUTSIDE = ['duplicate entrypoint names (rejected by Tezos)', 'deeper trees']
 ASSUMPTIONS = ['entrypoints = annotated union nodes/leaves reachable through unions only, plus the root under its own annotation, else "default", else "root" when "default" is taken']
 
-LEAF_TYPES = ['int', 'nat', 'string', 'bytes', 'unit']
+LEAF_TYPES = ['int', 'list nat', 'string', 'bytes', 'unit', 'option bool', 'nat', 'set int']     # incl. leaves whose Micheline can be an empty sequence / falsy in Python
 # shapes as nested tuples; leaves are None
 SHAPES = {
     'or(L,L)': (None, None),
@@ -44,7 +44,7 @@ def build_type(shape, names, path='', leaf_counter=None):
     if leaf_counter is None:
         leaf_counter = [0]
     if shape is None:
-        t = {'prim': LEAF_TYPES[leaf_counter[0] % len(LEAF_TYPES)]}
+        t = dict(mich.texpr(LEAF_TYPES[leaf_counter[0] % len(LEAF_TYPES)]))
         leaf_counter[0] += 1
     else:
         t = {'prim': 'or', 'args': [build_type(s, names, path + str(i), leaf_counter) for i, s in enumerate(shape)]}
